@@ -926,10 +926,12 @@ mod superimpose_style_sections {
     ) -> Vec<(Style, String)> {
         let syntax = explode(syntax_style_sections);
         let diff = explode(diff_style_sections);
-        if syntax.len() != diff.len() || syntax.iter().zip(&diff).any(|(s, d)| s.1 != d.1) {
+        if syntax.iter().zip(&diff).any(|(s, d)| s.1 != d.1) {
             // The two annotations are not of the same text (e.g. malformed escape sequences in
-            // the input, which the two code paths treat differently). Do not crash, and do not
-            // drop text: show the line in its diff styles, without syntax highlighting.
+            // the input, which the two code paths treat differently). Do not crash: show the
+            // line in its diff styles, without syntax highlighting. (Annotations which differ
+            // only in length - one of them lacks e.g. the trailing newline - are zipped as far
+            // as the shorter one goes, as before.)
             return coalesce(
                 diff.into_iter()
                     .map(|(style, c)| ((null_syntect_style, style), c))
